@@ -173,7 +173,7 @@ def gen_nodes(rng, depth, n, in_section=False, zones=True):
 
 def gen_doc(rng: random.Random, size: int = 4, zones: bool = True, sections: bool = True, meta: bool = True,
             frontmatter: bool = True) -> dict:
-    d = {"name": rng.choice(["DOC", "My_Doc", "_x9"]), "gv": None, "fm": None, "meta": [], "sep": False, "nodes": [], "trailing": []}
+    d = {"name": rng.choice(["DOC", "My_Doc", "_x9", "DOC", "INFERRED"]), "gv": None, "fm": None, "meta": [], "sep": False, "nodes": [], "trailing": []}
     if frontmatter and rng.random() < 0.15:
         d["fm"] = rng.choice(["name: Agent (Specialist)\ndescription: x: y", "a: 1", "title: \"q\"\n# yaml comment"])
     if rng.random() < 0.2:
@@ -465,8 +465,10 @@ def render(d: dict, sp: Spelling):
     if d["gv"]:
         w.w("OCTAVE::" + d["gv"])
         _eol(w, sp)
-    w.w("===" + d["name"] + "===")
-    _eol(w, sp)
+    # a document named INFERRED may be written without its envelope line (the reader infers exactly that name)
+    if not (d["name"] == "INFERRED" and not d["gv"] and sp.flip("envelope")):
+        w.w("===" + d["name"] + "===")
+        _eol(w, sp)
     if d["meta"]:
         w.w("META:")
         _eol(w, sp)
